@@ -12,7 +12,7 @@ from sketchnu.hyperloglog import HyperLogLog
 
 RULE = (
     "For each p in 7..16 and each of S sketch seeds (quick 24, thorough 300; seeds and the key stream are functions of VERIF_SEED) "
-    "one HyperLogLog is filled incrementally (by add(), update(list) or update(dict), rotating with the seed index) with distinct keys of varied length (9..16 bytes: random prefix, counter, random tail) and "
+    "one HyperLogLog is filled incrementally (by add(), update(list) or update(dict), rotating with the seed index; every fourth seed uses a shared-memory sketch; HyperLogLog objects of other precisions are created and used between the queries) with distinct keys of varied length (9..16 bytes: random prefix, counter, random tail) and "
     "queried at every grid point n: log grid (ratio 1.25) from 1 to 12*2^p (quick) / 40*2^p (thorough) plus threshold[p] +- {0,1,2}*m/50, "
     "2.5m, 5m +- {0,1,2}*m/50. Oracles: empty sketch -> exactly 0.0; while m*ln(m/(m-n)) <= threshold[p]: query <= m*ln(m/(m-n)) "
     "(deterministic) and, for the first seed of every p, query == linear counting of the occupied-register count predicted by the "
@@ -71,8 +71,11 @@ def _task(arg):
 def _task_inner(p, hseed, nmax_factor, with_ref, mode):
     m = 1 << p
     grid = grid_for(p, nmax_factor)
-    h = HyperLogLog(p, hseed)
+    shm = mode >= 3  # a quarter of the seeds use a shared-memory sketch (same estimates expected)
+    mode = mode % 3
+    h = HyperLogLog(p, hseed, shared_memory=shm)
     out = []
+    decoy = HyperLogLog(7 if p != 7 else 16, 1)  # another precision is alive and younger than h
     e0 = sut(h.query)
     if not (e0 == 0.0):
         return {"p": p, "hseed": hseed, "viol": (0, f"empty sketch query()={e0!r}, expected exactly 0.0", "empty-not-zero"), "ests": []}
@@ -93,6 +96,9 @@ def _task_inner(p, hseed, nmax_factor, with_ref, mode):
                 if n < m and m * math.log(m / (m - n)) <= thr * 1.0 + 1:
                     occupied.add(refhash.fasthash64(k, hseed) & (m - 1))
         pos = n
+        decoy = HyperLogLog(16 if (n + p) % 2 else (8 if p != 8 else 9), n & 0xFFFF)  # sketches of other precisions come and go
+        decoy.add(b"x")
+        decoy.query()
         est = float(sut(h.query))
         lc_n = m * math.log(m / (m - n)) if n < m else float("inf")
         if lc_n <= thr:
@@ -118,7 +124,7 @@ def run(tier, seed, rec):
     for p in range(16, 6, -1):
         for i in range(S):
             hs = common.derive_seed(seed, "C07-hll", p, i) if i > 2 else [0, 2**64 - 1, 2**32][i]
-            tasks.append((p, hs, F, i == 0, i % 3))
+            tasks.append((p, hs, F, i == 0, i % 3 + (3 if i % 4 == 3 else 0)))
     results = common.pool_map(_task, tasks)
     per = {}
     for r in results:
@@ -164,7 +170,7 @@ def replay(case):
         devs = []
         for i in range(S):
             hs = common.derive_seed(case["verif_seed"], "C07-hll", p, i) if i > 2 else [0, 2**64 - 1, 2**32][i]
-            r = _task((p, hs, F, False, i % 3))
+            r = _task((p, hs, F, False, i % 3 + (3 if i % 4 == 3 else 0)))
             if r["viol"]:
                 raise Violation(r["viol"][1], r["viol"][2])
             devs += [est / n - 1.0 for n, est, regime in r["ests"] if n == case["n"] and regime]
@@ -173,7 +179,7 @@ def replay(case):
         if abs(mean) > (1.0 + 8.0 / math.sqrt(S)) * sigma:
             raise Violation(f"p={p} n={case['n']}: mean relative error {mean/sigma:.2f} sigma", "mean-bias")
         return
-    r = max((_task((case["p"], case["hseed"], F, True, mode)) for mode in (0, 1, 2)), key=lambda r: r["viol"] is not None)
+    r = max((_task((case["p"], case["hseed"], F, True, mode)) for mode in (0, 1, 2, 3, 4, 5)), key=lambda r: r["viol"] is not None)
     if r["viol"]:
         raise Violation(r["viol"][1], r["viol"][2])
     sigma = 1.04 / math.sqrt(1 << case["p"])
